@@ -225,17 +225,19 @@ fn case(g: &mut Gen, ctx: &mut Ctx) -> CaseResult {
         Ok(vec![0x99])
     };
     let ct = if has_ct { Some(ciphertext.clone()) } else { None };
+    // (the unprotected header — algorithm, key id, IVs — takes no part in the structure or the refusals)
+    let unprot = gen_unprotected(g);
     let res = match carrier {
         0 => {
-            let m = CoseEncrypt { protected: prot.value.clone(), unprotected: Header::default(), ciphertext: ct.clone(), recipients: vec![] };
+            let m = CoseEncrypt { protected: prot.value.clone(), unprotected: unprot.clone(), ciphertext: ct.clone(), recipients: vec![] };
             crate::run::catch(|| m.decrypt(&aad, cipher))
         }
         1 => {
-            let m = CoseEncrypt0 { protected: prot.value.clone(), unprotected: Header::default(), ciphertext: ct.clone() };
+            let m = CoseEncrypt0 { protected: prot.value.clone(), unprotected: unprot.clone(), ciphertext: ct.clone() };
             crate::run::catch(|| m.decrypt(&aad, cipher))
         }
         _ => {
-            let m = CoseRecipient { protected: prot.value.clone(), unprotected: Header::default(), ciphertext: ct.clone(), recipients: vec![] };
+            let m = CoseRecipient { protected: prot.value.clone(), unprotected: unprot.clone(), ciphertext: ct.clone(), recipients: vec![] };
             crate::run::catch(|| m.decrypt(CTXS[ci], &aad, cipher))
         }
     };
